@@ -218,3 +218,300 @@ Theorem C04_source_filter_match :
             end) pb cur name).
 Proof. exact gen_filter_match_is_model. Qed.
 Print Assumptions C04_source_filter_match.
+
+(* ================================================================================================
+   Second round (DESIGN 11.7): the small decisions OUTSIDE the classic decision functions -- the
+   command-line plumbing of cargo-nextest/src/dispatch.rs and TestRunnerBuilder::build, the decision
+   after each attempt, the platform guards, the spawn-time set-up, the threads-required argument.
+   [MC] is Model/CliRun.v (written from the documented behaviour of the options), [PC] its facts.
+   ================================================================================================ *)
+
+(* ---- facts about Model/CliRun.v, at the level of the property texts *)
+
+(* C08 "with --no-capture at most one test runs at a time": for EVERY message format and every other
+   option the runner's thread count is 1 and nothing is captured ... *)
+Theorem C08_cli_no_capture_any_format :
+  forall o f pt pm ncpus s,
+    MC.runner_of o true f pt pm ncpus = Some s -> MC.rs_capture s = MC.CapNone /\ MC.rs_test_threads s = 1.
+Proof. exact PC.runner_no_capture. Qed.
+Print Assumptions C08_cli_no_capture_any_format.
+
+(* ... hence (C08_no_capture_serial) the queue built with that count never has two tests in progress. *)
+Theorem C08_cli_no_capture_one_at_a_time :
+  forall o f pt pm ncpus s grps items ops,
+    MC.runner_of o true f pt pm ncpus = Some s ->
+    Forall (fun it => 1 <= NextestModel.Model.FutureQueue.it_w it) items ->
+    (length (NextestModel.Model.FutureQueue.running
+               (fst (NextestModel.Model.FutureQueue.fq_run
+                       (NextestModel.Model.FutureQueue.fq_new (MC.rs_test_threads s) grps items) ops))) <= 1)%nat.
+Proof. exact PC.runner_no_capture_one_at_a_time. Qed.
+Print Assumptions C08_cli_no_capture_one_at_a_time.
+
+(* C08: --test-threads / NEXTEST_TEST_THREADS replaces the profile's value (when output is captured) *)
+Theorem C08_cli_threads_beat_profile :
+  forall nc f t prof ncpus,
+    nc = false ->
+    MC.effective_test_threads (MC.capture_strategy_of nc f) (Some t) prof ncpus = MC.threads_compute ncpus t.
+Proof. exact PC.cli_threads_beat_profile. Qed.
+Print Assumptions C08_cli_threads_beat_profile.
+
+(* C10: --max-fail beats --no-fail-fast beats --fail-fast beats the profile *)
+Theorem C10_cli_max_fail_flag_wins :
+  forall m nff ff prof, MC.max_fail_of (Some m) nff ff prof = m.
+Proof. exact PC.max_fail_flag_wins. Qed.
+Print Assumptions C10_cli_max_fail_flag_wins.
+Theorem C10_cli_no_fail_fast_is_all :
+  forall ff prof, MC.max_fail_of None true ff prof = None.
+Proof. exact PC.no_fail_fast_beats_fail_fast. Qed.
+Print Assumptions C10_cli_no_fail_fast_is_all.
+Theorem C10_cli_fail_fast_is_one :
+  forall prof, MC.max_fail_of None false true prof = Some 1.
+Proof. exact PC.fail_fast_is_one. Qed.
+Print Assumptions C10_cli_fail_fast_is_one.
+Theorem C10_cli_profile_by_default :
+  forall prof, MC.max_fail_of None false false prof = prof.
+Proof. exact PC.profile_max_fail_by_default. Qed.
+Print Assumptions C10_cli_profile_by_default.
+
+(* C07 / C06: the policy --retries N / NEXTEST_RETRIES builds is Model/RetryResolve.v's force_retries *)
+Theorem C07_cli_forced_retries_is_resolve :
+  forall cli env,
+    NextestModel.Model.RetryResolve.force_retries cli env =
+    MC.forced_retries (NextestModel.Model.RetryResolve.clap_retries cli env).
+Proof. exact PC.forced_retries_is_resolve. Qed.
+Print Assumptions C07_cli_forced_retries_is_resolve.
+
+(* ---- the same, tied to the source text *)
+
+(* C08 / C16: the capture strategy App::exec_run computes and hands to TestRunnerOpts::to_builder (the
+   argument of that call, with the `let`s it depends on). Honouring --no-capture for the human format
+   only falsifies it. *)
+Theorem C08_source_cap_strat :
+  forall nc f, cap_to_model (G.exec_run_cap_strat nc f) = MC.capture_strategy_of nc (fmt_to_model f).
+Proof. exact gen_cap_strat_is_model. Qed.
+Print Assumptions C08_source_cap_strat.
+
+(* C08: the value TestRunnerBuilder::build stores in TestRunnerInner.test_threads *)
+Theorem C08_source_build_test_threads :
+  forall b pt ncpus,
+    G.build_test_threads b pt ncpus =
+    MC.effective_test_threads (cap_to_model (G.TestRunnerBuilder_capture_strategy b))
+      (option_map threads_to_model (G.TestRunnerBuilder_test_threads b)) (threads_to_model pt) ncpus.
+Proof. exact gen_build_test_threads_is_model. Qed.
+Print Assumptions C08_source_build_test_threads.
+
+(* C08 / C10 / C07: the whole path command line -> App::exec_run's capture strategy ->
+   TestRunnerOpts::to_builder (with the TestRunnerBuilder setters and derive(Default)) ->
+   TestRunnerBuilder::build: the capture strategy, thread count, max-fail and forced retry policy the
+   runner is built with are [MC.runner_of] of the options, for every option combination. *)
+Theorem C08_source_runner_settings :
+  forall o nc f pt pm ncpus,
+    option_map (settings_of_builder pt pm ncpus) (G.TestRunnerOpts_to_builder o (G.exec_run_cap_strat nc f)) =
+    MC.runner_of (opts_to_model o) nc (fmt_to_model f) (threads_to_model pt) (mf_to_model pm) ncpus.
+Proof. exact gen_runner_settings_is_model. Qed.
+Print Assumptions C08_source_runner_settings.
+
+(* C08, the property's own sentence on the source text: with --no-capture the thread count the runner is
+   built with is 1 and nothing is captured, for EVERY message format and every other option. *)
+Theorem C08_source_no_capture_serial :
+  forall o f pt ncpus b,
+    G.TestRunnerOpts_to_builder o (G.exec_run_cap_strat true f) = Some b ->
+    G.build_test_threads b pt ncpus = 1 /\ G.build_capture_strategy b = G.CaptureStrategy_None.
+Proof. exact gen_no_capture_serial. Qed.
+Print Assumptions C08_source_no_capture_serial.
+
+(* C01: the process exit status of BOTH entry points -- `cargo nextest run` (Command::Run arm of AppOpts::exec:
+   `app.exec_run(..)?; Ok(0)`) and `cargo ntr` (NtrOpts::exec: the value of exec_run itself) -- composed with the
+   final match of exec_run and with main(): exit_code (summarize_final s) p. Returning Ok(100) from exec_run, which
+   the Command::Run arm discards, falsifies it. *)
+Theorem C01_source_command_exit :
+  forall e s p,
+    process_exit (entry_gen_exit e (G.exec_run_exit s p)) =
+    MC.entry_exit e (MR.summarize_final (stats_to_model s)) (policy_to_model p).
+Proof. exact gen_command_exit_is_model. Qed.
+Print Assumptions C01_source_command_exit.
+
+(* ---- the decision after each attempt (C07) *)
+
+(* C07 "run again after each failed attempt until an attempt passes or N+1 attempts have been made": the model
+   decision retries exactly the non-passing attempts that have attempts left -- whatever KIND of failure *)
+Theorem C07_attempt_retry_iff :
+  forall passed a t, MA.after_attempt passed a t = MA.ARetry <-> passed = false /\ a < t.
+Proof. exact PA.after_attempt_retry_iff. Qed.
+Print Assumptions C07_attempt_retry_iff.
+
+(* The `if`/`match` the loop body of ExecutorContext::run_test_instance ends in, branch by branch (does it `break`
+   -- Finished follows the loop -- or go round again, and which ExecutorEvent does it send), as a function of the
+   attempt's result and RetryData: it is [MA.after_attempt] of ExecutionResult::is_success. Retrying only
+   ExecutionResult::Fail (so that a timed-out or exec-failed attempt is final) falsifies it. *)
+Theorem C07_source_after_attempt :
+  forall r attempt total,
+    exit_to_model (G.run_test_instance_after_attempt r (G.mk_RetryData attempt total)) =
+    Some (MA.after_attempt (MR.is_success (result_to_model r)) attempt total).
+Proof. exact gen_after_attempt_is_model. Qed.
+Print Assumptions C07_source_after_attempt.
+
+(* One iteration of the loop C07's theorems are about (Model/Backoff.v [attempt_loop]: C07_attempts, C07_stop_on_success,
+   C07_delays ...), instantiated with the generated result type and the generated is_success, IS that generated
+   decision. *)
+Theorem C07_source_attempt_loop :
+  forall f attempt delay bs total outcome accept js,
+    MB.attempt_loop G.ExecutionResult G.ExecutionResult_is_success (S f) attempt delay bs total outcome accept js =
+    if (1 <? attempt) && negb (accept attempt) then (nil, MB.Refused)
+    else
+      let r := outcome attempt in
+      let rec := MB.Build_attempt_rec G.ExecutionResult attempt delay r in
+      match exit_to_model (G.run_test_instance_after_attempt r (G.mk_RetryData attempt total)) with
+      | Some MA.AFinish => (rec :: nil, MB.Finished)
+      | Some MA.ARetry =>
+          match MB.b_next (js attempt) bs with
+          | None => (rec :: nil, MB.Panicked)
+          | Some (d, bs') =>
+              let '(l, e) := MB.attempt_loop G.ExecutionResult G.ExecutionResult_is_success f (attempt + 1) d bs' total
+                               outcome accept js in
+              (rec :: l, e)
+          end
+      | None => (rec :: nil, MB.Panicked)
+      end.
+Proof. exact gen_attempt_loop_step. Qed.
+Print Assumptions C07_source_attempt_loop.
+
+(* The whole-life unit model (Model/UnitLife.v, C07 / C11 / C12 over real time) makes the same decision. *)
+Theorem C07_unit_life_decision :
+  forall c s u,
+    NextestModel.Model.UnitLife.finish_attempt c s u =
+    let r := NextestModel.Model.UnitLife.Build_arec (NextestModel.Model.UnitLife.l_k s)
+               (NextestModel.Model.UnitTimers.uresult u) (NextestModel.Model.UnitTimers.slow u)
+               (NextestModel.Model.UnitTimers.time_taken u) in
+    match MA.after_attempt (NextestModel.Model.UnitLife.ures_success (NextestModel.Model.UnitTimers.uresult u))
+            (NextestModel.Model.UnitLife.l_k s) (NextestModel.Model.UnitLife.lc_total c) with
+    | MA.AFinish =>
+        NextestModel.Model.Clocks.Ok
+          (NextestModel.Model.UnitLife.mkl NextestModel.Model.UnitLife.LFinishedP (NextestModel.Model.UnitLife.l_k s)
+             (NextestModel.Model.UnitLife.l_bs s) (NextestModel.Model.UnitLife.l_delay s)
+             (r :: NextestModel.Model.UnitLife.l_done s),
+           NextestModel.Model.UnitLife.LFinished (NextestModel.Model.UnitLife.l_k s) :: nil)
+    | MA.ARetry =>
+        match MB.b_next (NextestModel.Model.UnitLife.lc_js c (NextestModel.Model.UnitLife.l_k s))
+                (NextestModel.Model.UnitLife.l_bs s) with
+        | None => NextestModel.Model.Clocks.Panicked
+        | Some (d, bs') =>
+            NextestModel.Model.Clocks.Ok
+              (NextestModel.Model.UnitLife.mkl
+                 (NextestModel.Model.UnitLife.LDelay (NextestModel.Model.UnitTimers.dinit d))
+                 (NextestModel.Model.UnitLife.l_k s) bs' d (r :: NextestModel.Model.UnitLife.l_done s),
+               NextestModel.Model.UnitLife.LAttemptFailedWillRetry (NextestModel.Model.UnitLife.l_k s) d :: nil)
+        end
+    end.
+Proof. exact PA.finish_attempt_decision. Qed.
+Print Assumptions C07_unit_life_decision.
+
+(* C07 / C06: `let retry_policy = self.force_retries.unwrap_or_else(|| settings.retries())` and `total_attempts =
+   retry_policy.count() + 1` at the top of run_test_instance are effective_policy / p_count + 1 of Model/Backoff.v
+   (run_test_instance) and Model/RetryResolve.v (resolved_policy). *)
+Theorem C07_source_retry_policy :
+  forall force own,
+    retry_policy_to_model (G.run_test_instance_retry_policy force own) =
+    MB.effective_policy (option_map retry_policy_to_model force) (retry_policy_to_model own) /\
+    G.run_test_instance_total_attempts force own =
+    MB.p_count (MB.effective_policy (option_map retry_policy_to_model force) (retry_policy_to_model own)) + 1.
+Proof. exact gen_retry_policy_and_total. Qed.
+Print Assumptions C07_source_retry_policy.
+
+(* C07 "A --retries value given on the command line or in NEXTEST_RETRIES replaces every test's policy, delays
+   included", on the source text end to end (to_builder -> build -> run_test_instance). *)
+Theorem C07_source_forced_retries :
+  forall o cs b n own,
+    G.TestRunnerOpts_to_builder o cs = Some b ->
+    G.TestRunnerOpts_retries o = Some n ->
+    retry_policy_to_model (G.run_test_instance_retry_policy (G.build_force_retries b) own) = MB.new_without_delay n /\
+    G.run_test_instance_total_attempts (G.build_force_retries b) own = n + 1.
+Proof. exact gen_forced_retries. Qed.
+Print Assumptions C07_source_forced_retries.
+
+(* ---- platform guards (C06, C18) *)
+
+(* C06: the platform `continue`s at the head of the loop over the overrides in TestSettings::new (the guards in front of
+   the filterset test), as a function of the override's FinalConfig and the test binary's build platform:
+   host_eval AND (host_test_eval for a host binary, target_eval for a target binary) -- [MO.platform_ok], the platform
+   half of [MO.applies] (C06_winner_applies, C06_first_applicable ...). Dropping host_eval for host tests falsifies it. *)
+Theorem C06_source_override_platform_guard :
+  forall st p, G.override_platform_guard st p = MO.platform_ok (state_to_model st) (is_host p).
+Proof. exact gen_override_platform_guard_is_model. Qed.
+Print Assumptions C06_source_override_platform_guard.
+
+(* ... and it is the platform part of [MO.skips], the function TestSettings::new's model folds over the overrides. *)
+Theorem C06_source_override_skips :
+  forall e t st o,
+    MO.skips e t (state_to_model st, o) =
+    negb (G.override_platform_guard st (platform_of (MO.t_host t)))
+    || match MO.filter_of o with Some f => negb (MO.e_filter e f (MO.t_id t)) | None => false end.
+Proof. exact gen_override_skips_is_model. Qed.
+Print Assumptions C06_source_override_skips.
+
+(* C18: CompiledProfileScripts::is_enabled -- [MSc.rule_matches], the function C18's "scripts run iff needed" theorems
+   are about, is the source's three platform guards followed by the filterset. Dropping host_test_eval falsifies it. *)
+Theorem C18_source_script_platform_guard :
+  forall st p flt setup id,
+    MSc.rule_matches
+      (MSc.mkrule (G.FinalConfig_host_eval st) (G.FinalConfig_host_test_eval st) (G.FinalConfig_target_eval st) flt setup)
+      (MSc.mkq id (is_host p)) =
+    G.script_platform_guard st p && match flt with Some f => f (MSc.mkq id (is_host p)) | None => true end.
+Proof. exact gen_script_platform_guard_is_model. Qed.
+Print Assumptions C18_source_script_platform_guard.
+
+(* ---- spawn-time set-up (C15; C09 / C11 for the process group; C16 / C08 for the streams) *)
+
+(* what the model asks of the set-up gives the property's sentences, for EVERY capture strategy *)
+Theorem C15_setup_ok_stdin_and_group :
+  forall cap t, MSp.setup_ok cap t = true -> MSp.stdin_null t = true /\ MSp.own_process_group t = true.
+Proof. exact PSp.setup_ok_stdin_and_group. Qed.
+Print Assumptions C15_setup_ok_stdin_and_group.
+
+(* its variable list is Model/Command.v's executor_layer, which [test_assignments] (C15_nextest_vars_win ...) puts after
+   the make_command assignments (cargo [env] included) and before the setup-script variables *)
+Theorem C15_setup_env_keys_are_executor_layer :
+  forall r a, map NextestModel.Model.Command.K.s MSp.executor_env_keys =
+              map fst (NextestModel.Model.Command.executor_layer r a).
+Proof. exact PSp.executor_env_keys_are_executor_layer. Qed.
+Print Assumptions C15_setup_env_keys_are_executor_layer.
+
+(* C15 on the source text: the ordered list of calls ExecutorContext::run_test_inner makes on the Command --
+   following os::set_process_group, TestCommand::spawn and test_command::imp::spawn, each call under the condition it
+   is made -- regenerated from the source satisfies [MSp.setup_ok] for every capture strategy: the command comes from
+   make_command, then exactly the five executor_layer variables in order, then the setup-script variables, stdin is the
+   null device and the child leads its own process group whatever the capture strategy, stdout / stderr are left alone
+   with --no-capture and piped otherwise, and the spawn comes last. Folding stdin into the capture-strategy match and
+   forgetting the None arm, or making process_group(0) conditional on capture, falsifies it. *)
+Theorem C15_source_spawn_setup :
+  forall cap, MSp.setup_ok (cap_to_model cap) (G.run_test_inner_setup cap) = true.
+Proof. exact gen_spawn_setup_is_model. Qed.
+Print Assumptions C15_source_spawn_setup.
+
+(* C09 / C11 (signals go to the test's process group) and C15: the two unconditional calls, spelled out *)
+Theorem C15_source_spawn_stdin_and_group :
+  forall cap,
+    MSp.stdin_null (G.run_test_inner_setup cap) = true /\ MSp.own_process_group (G.run_test_inner_setup cap) = true.
+Proof. exact gen_spawn_setup_stdin_and_group. Qed.
+Print Assumptions C15_source_spawn_stdin_and_group.
+
+(* ---- threads-required (C08) *)
+
+(* C08 "the sum of their threads-required (each capped at the test-thread count) is at most the test-thread count":
+   the weight TestRunnerInner::execute hands to the queue is ThreadsRequired::compute of the test's setting against
+   `self.test_threads` -- the runner's count, i.e. (C08_source_build_test_threads) 1 under --no-capture and the
+   command line's value over the profile's otherwise -- and the same `self.test_threads` is the queue's global limit.
+   Resolving "num-test-threads" from the profile instead removes the call the request names (not translated) or
+   changes its argument (lemma false). *)
+Theorem C08_source_threads_required :
+  forall r runner_threads ncpus,
+    G.execute_threads_required r runner_threads ncpus = MC.threads_required_weight (tr_to_model r) runner_threads ncpus.
+Proof. exact gen_threads_required_is_model. Qed.
+Print Assumptions C08_source_threads_required.
+
+Theorem C08_source_threads_required_fills_queue :
+  forall runner_threads ncpus,
+    G.execute_threads_required G.ThreadsRequired_NumTestThreads runner_threads ncpus =
+    G.execute_queue_limit runner_threads.
+Proof. exact gen_num_test_threads_fills_queue. Qed.
+Print Assumptions C08_source_threads_required_fills_queue.
